@@ -15,6 +15,8 @@ if args[:1] == ["-j"]:
 names = args or sorted(os.path.basename(os.path.dirname(f)) for f in glob.glob("/verif/seeded/*/meta.json"))
 
 def check_of(meta):
+    if meta.get("caught_by"):
+        return meta["caught_by"]
     m = re.search(r"\b(C\d\d) quick", meta.get("note", ""))
     return m.group(1) if m else meta["property"]
 
@@ -23,12 +25,17 @@ def one(name):
     if meta["verdict"].startswith("equivalent"):
         return name, meta["property"], "skipped", "recorded as equivalent under the reading in force"
     chk = check_of(meta)
-    p = subprocess.run(["/verif/tools/recheck_seed.sh", name, chk], capture_output=True, text=True)
+    if meta["verdict"] == "missed":
+        return name, chk, "skipped", "recorded as missed (see note)"
+    target = name
+    if meta.get("ported_patch"):
+        target = "/verif/" + meta["ported_patch"].split()[0]
+    p = subprocess.run(["/verif/tools/recheck_seed.sh", target, chk], capture_output=True, text=True)
     line = (p.stdout.strip().splitlines() or [""])[-1]
     if p.returncode == 0:
         m = re.search(r"rule=(\S+)", line)
         return name, chk, "caught", m.group(1) if m else line[-80:]
-    if p.returncode == 2:
+    if p.returncode == 2 or "build of the harness" in line:
         return name, chk, "patch-does-not-apply-to-HEAD", ""
     return name, chk, "NOT CAUGHT", line[-120:]
 
